@@ -99,6 +99,146 @@ Theorem C14_checker_sound :
 Proof. exact C14_check_sound. Qed.
 Print Assumptions C14_checker_sound.
 
+From Verif Require Import Base.GenIR Gen.GeneratedTr Proofs.GenTrWorker.
+Section GenTie.
+Local Open Scope Z_scope.
+(* ---- Tie to the source by translation (Gen/GeneratedTr.v, regenerated from /repo on every run by gen/translate.go) ----
+   g_* are the decision terms translated from the CURRENT pkg/util/worker.go: every condition (which case of a select
+   is taken is an input), the branch structure and which effect statement runs on which path.  The theorems below
+   state that the transitions of the model - about which the theorems above speak - follow these terms. *)
+(* WorkerGroup.Do, the checks before the select *)
+Theorem C14_gen_do_checks :
+  forall cf s c d n, (c < ncallers cf)%nat -> c_spc (callers s c) = SCheck ->
+  step cf s (LCheck c) =
+  match ret_of (g_wg_do (c_cancel (callers s c)) (qclosed s) d n true false) with
+  | RetO 0 => Some (s_caller s c (k_spc (callers s c) SSelect))
+  | _ => Some (s_caller s c (k_spc (callers s c) SFail))
+  end.
+Proof. exact gen_wg_do_checks. Qed.
+Print Assumptions C14_gen_do_checks.
+
+(* WorkerGroup.Do, the three-way select *)
+Theorem C14_gen_do_select :
+  forall cf s c d n, (c < ncallers cf)%nat -> c_spc (callers s c) = SSelect ->
+  ret_of (g_wg_do false false d n true false) = RetO 0 /\
+  ret_of (g_wg_do false false d n false true) = RetO 1 /\
+  ret_of (g_wg_do false false d n false false) = RetO 2 /\
+  step cf s (LSelCancel c) = (if c_cancel (callers s c) then Some (s_caller s c (k_spc (callers s c) SFail)) else None) /\
+  step cf s (LSelStop c) = (if stopped s then Some (s_caller s c (k_spc (callers s c) SFail)) else None).
+Proof. exact gen_wg_do_select. Qed.
+Print Assumptions C14_gen_do_select.
+
+(* RunJobs, one job of the submit loop: wait.Add(1), Do, and wait.Done() + break on refusal *)
+Theorem C14_gen_submit_loop :
+  forall cf s c, (c < ncallers cf)%nat ->
+  g_run_jobs_submit true = ([1; 2; 3], Brk) /\ g_run_jobs_submit false = ([1; 2], Fall) /\
+  (c_spc (callers s c) = SLoop -> (c_nxt (callers s c) < njobs cf c)%nat ->
+   step cf s (LAdd c) = Some (s_caller s c (k_wg (k_spc (callers s c) SCheck) (S (c_wg (callers s c)))))) /\
+  (c_spc (callers s c) = SFail ->
+   step cf s (LFail c) = match c_wg (callers s c) with
+                         | O => Some (s_err s true)
+                         | S w => Some (s_caller s c (k_wg (k_spc (callers s c) SWait) w))
+                         end).
+Proof. exact gen_run_jobs_submit. Qed.
+Print Assumptions C14_gen_submit_loop.
+
+(* RunJobs after the loop: wait for the results, drop the group, close the reader *)
+Theorem C14_gen_runjobs_tail :
+  forall cf s c, (c < ncallers cf)%nat ->
+  g_run_jobs = ([1; 2; 3; 4; 5], Fall) /\
+  (c_spc (callers s c) = SWait ->
+   step cf s (LWait c) = match c_wg (callers s c) with O => Some (s_caller s c (k_spc (callers s c) SRemoved)) | S _ => None end) /\
+  (c_spc (callers s c) = SRet ->
+   step cf s (LClose c) = if c_end (callers s c) then None else Some (s_caller s c (k_end (callers s c) true))).
+Proof. exact gen_run_jobs_tail. Qed.
+Print Assumptions C14_gen_runjobs_tail.
+
+(* RunJobs reader goroutine *)
+Theorem C14_gen_reader :
+  forall cf s c, (c < ncallers cf)%nat -> c_rpc (callers s c) = RSel ->
+  g_run_jobs_reader true = ([1], Fall) /\ g_run_jobs_reader false = ([], RetU) /\ g_run_jobs_deliver = ([1; 2], Fall) /\
+  step cf s (LRTok c) = (if c_tok (callers s c) then Some (s_caller s c (k_rpc (k_tok (callers s c) false) RGot)) else None) /\
+  step cf s (LREnd c) = (if c_end (callers s c) then Some (s_caller s c (k_rpc (callers s c) RExit)) else None).
+Proof. exact gen_run_jobs_reader. Qed.
+Print Assumptions C14_gen_reader.
+
+(* processQueue, one turn *)
+Theorem C14_gen_process_queue :
+  forall cf s, p_pc s = PLoop ->
+  g_wg_process_queue_body (Z.of_nat (length (queue s))) false =
+    match queue s with [] => ([], Brk) | _ => ([1; 2], Fall) end /\
+  step cf s LPEmpty = match queue s with [] => Some (s_ppc s (if p_final s then PExit else PSel)) | _ => None end /\
+  step cf s LPPop = match queue s with j :: t => Some (s_ppc (s_queue s t) (PDo j)) | [] => None end.
+Proof. exact gen_wg_process_queue. Qed.
+Print Assumptions C14_gen_process_queue.
+
+(* doJob: new worker below maxWorkers, otherwise wait for an idle one *)
+Theorem C14_gen_do_job :
+  forall cf s j, p_pc s = PDo j ->
+  g_wg_do_job (Z.of_nat (active s)) (Z.of_nat (maxw cf)) =
+    (if (active s <? maxw cf)%nat then ([1; 2; 4], Fall) else ([3; 4], Fall)) /\
+  step cf s LPNew = (if (active s <? maxw cf)%nat
+                     then Some (s_ppc (s_running (s_active s (S (active s))) (running s ++ [j])) PLoop) else None) /\
+  step cf s LPReuse = (if (active s <? maxw cf)%nat then None else
+                       match idle s with
+                       | O => None
+                       | S i => Some (s_ppc (s_running (s_idle s i) (running s ++ [j])) PLoop)
+                       end).
+Proof. exact gen_wg_do_job. Qed.
+Print Assumptions C14_gen_do_job.
+
+(* runQueuing, one turn *)
+Theorem C14_gen_queuing_loop :
+  forall cf s b,
+  g_wg_queuing_body true b = ([1], Fall) /\ g_wg_queuing_body false b = ([2], RetU) /\
+  (forall j, q_pc s = QGot j -> step cf s LQAdd = Some (s_qpc (s_queue s (queue s ++ [j])) QNotify)) /\
+  (q_pc s = QNotify -> step cf s LQNotify = Some (s_qpc (s_ntok s true) QSel)) /\
+  (q_pc s = QStopping -> p_pc s = PSel -> step cf s LQHand = Some (s_pfinal (s_ppc (s_qpc s QExit) PLoop) true)).
+Proof. exact gen_wg_queuing. Qed.
+Print Assumptions C14_gen_queuing_loop.
+
+(* runProcessing, one turn, and the final processQueue of run *)
+Theorem C14_gen_processing_loop :
+  forall cf s, p_pc s = PSel ->
+  g_wg_processing_body true = ([1], Fall) /\ g_wg_processing_body false = ([], RetU) /\ g_wg_run = ([1; 2; 3], Fall) /\
+  step cf s LPTok = (if ntok s then Some (s_ppc (s_ntok s false) PLoop) else None).
+Proof. exact gen_wg_processing. Qed.
+Print Assumptions C14_gen_processing_loop.
+
+(* Stop: close the stop channel, mark the queue closed, tell the queuing loop *)
+Theorem C14_gen_stop :
+  forall cf s,
+  g_wg_stop = ([1; 2; 3], Fall) /\
+  (st_pc s = StInit -> step cf s LStop1 = if can_stop cf then Some (s_stpc (s_stopped s true) St1) else None) /\
+  (st_pc s = St1 -> step cf s LStop2 = Some (s_stpc (s_qclosed s true) St2)) /\
+  (st_pc s = St2 -> q_pc s = QSel -> step cf s LQStop = Some (s_stpc (s_qpc s QStopping) StRet)).
+Proof. exact gen_wg_stop. Qed.
+Print Assumptions C14_gen_stop.
+
+(* a worker always stores its result and returns its token without blocking *)
+Theorem C14_gen_worker_stores_result :
+  forall c r d n t,
+  fst (g_worker_do c r) = (if c then [1; 3] else [2; 3]) /\ snd (g_worker_do c r) = Fall /\
+  In 3 (fst (g_wg_store_result d n t)) /\ snd (g_wg_store_result d n t) = Fall.
+Proof. exact gen_worker_result. Qed.
+Print Assumptions C14_gen_worker_stores_result.
+
+(* Queue.Pop *)
+Theorem C14_gen_queue_pop :
+  forall n, 0 <= n ->
+  g_queue_pop n = if n =? 0 then ([], RetO 0) else if 1 <? n then ([1], RetO 1) else ([2], RetO 1).
+Proof. exact gen_queue_pop. Qed.
+Print Assumptions C14_gen_queue_pop.
+
+(* Results leaves an empty list behind on every path *)
+Theorem C14_gen_results_resets :
+  forall d n, hd 0 (fst (g_wg_results d n)) = 1.
+Proof. exact gen_wg_results. Qed.
+Print Assumptions C14_gen_results_resets.
+
+End GenTie.
+Close Scope Z_scope.
+
 (* Non-vacuity: two callers (2 jobs and 1 job), one worker, Stop allowed, unbuffered input: an
    schedule (always fire the first enabled label; it includes a racing Stop) reaches a terminal state; there every caller has
    returned and caller 0 received its jobs 0 and 1 exactly once. *)
